@@ -96,4 +96,20 @@ WT(n, s) ==
             sn == IF InAttn(attn, seg) THEN Explore(s, n, seg, raw) ELSE NILSEL
         IN IF sn = NILSEL THEN n.vs[i] ELSE WT(n.vs[i], sn)]]
   ELSE n
+\* A second callback: integers become "X" and every CONTAINER is answered with a fresh copy of itself -- equal in content,
+\* but a replacement all the same (the code compares the returned node with the one it offered, not their contents): the
+\* callback has spoken for that subtree and the walk does not go on beneath it.
+Changed2(n) == n.k = "int" \/ n.k \in RecursiveKinds
+RECURSIVE WT2(_, _)
+WT2(n, s) ==
+  IF n.k = "link" THEN [n EXCEPT !.vs = <<WT2(n.vs[1], s)>>]
+  ELSE IF Decides(s) /\ Changed2(n) THEN F(n)
+  ELSE IF n.k \in RecursiveKinds THEN
+    LET attn == Interests(s) IN
+    [n EXCEPT !.vs = [i \in DOMAIN n.vs |->
+        LET seg == SegOfChild(n, i)
+            raw == IF n.vs[i].k = "link" THEN Scalar("link", n.vs[i].a) ELSE n.vs[i]
+            sn == IF InAttn(attn, seg) THEN Explore(s, n, seg, raw) ELSE NILSEL
+        IN IF sn = NILSEL THEN n.vs[i] ELSE WT2(n.vs[i], sn)]]
+  ELSE n
 =============================================================================
